@@ -30,7 +30,7 @@ ASSUMPTIONS = [
     "non-finite floats and the behaviour of non-JSON serializers are outside the claim",
 ]
 TRUSTED = ["z3 5.1", "vt.models (builtin models + axioms)", "vt.sym explorer"]
-BOUNDS = {"label values": "all ints, both bools, 1 opaque float, 1 opaque bytes, 6 strings", "retries/requeues": "<= 2", "kicker operations": "<= 3"}
+BOUNDS = {"label values": "all ints, both bools, 1 opaque float, 1 opaque bytes, 6 strings", "retries/requeues": "<= 2 quick / 3 thorough", "kicker operations": "<= 2 quick / 4 thorough"}
 REQUIRED_COVERS = ["int", "bool", "float", "str", "bytes", "retry", "requeue", "task_label", "kicker_label", "leak_history", "shared_task"]
 
 STRS = ["plain", "True", "123", "", " 7 ", "ünï"]
@@ -42,11 +42,14 @@ def cases(tier: str, hname: str) -> List[Any]:
     if hname == "roundtrip":
         for kind in KINDS:
             for where in ("task", "kicker"):
-                out.append({"kind": kind, "where": where})
+                out.append({"kind": kind, "where": where, "hops": 2 if tier == "quick" else 3})
     else:
         for shared in (False, True):
             for first in range(len(OPS)):
                 out.append({"shared": shared, "first": first, "len": 2 if tier == "quick" else 3})
+                if tier == "thorough" and not shared:
+                    for second in range(len(OPS)):
+                        out.append({"shared": shared, "first": first, "second": second, "len": 4})
     return out
 
 
@@ -74,6 +77,8 @@ def roundtrip(c: sym.Ctx, case: Dict[str, Any]) -> None:
     steps = [c.choose(["stop", "retry", "requeue"], "step1")]
     if steps[0] != "stop":
         steps.append(c.choose(["stop", "retry", "requeue"], "step2"))
+        if case.get("hops", 2) >= 3 and steps[1] != "stop":
+            steps.append(c.choose(["stop", "retry", "requeue"], "step3"))
     lab = Lab(c)
     try:
         broker = make_broker(lab)
@@ -172,7 +177,8 @@ def leak(c: sym.Ctx, case: Dict[str, Any]) -> None:
         else:
             task = b1.task(task_name="t", **dict(declared))(fn)
         snapshot = dict(task.labels)
-        ops = [OPS[case["first"]]] + [c.choose(OPS, f"op{k}") for k in range(1, case["len"])]
+        ops = [OPS[case["first"]]] + ([OPS[case["second"]]] if "second" in case else []) + [
+            c.choose(OPS, f"op{k}") for k in range(2 if "second" in case else 1, case["len"])]
 
         reused = task.kicker()
         reused_labels: Dict[str, Any] = {}
